@@ -113,6 +113,14 @@ pub struct RunState {
     pub stdout_stalled: bool,
     /// tasks that are (conceptually) blocked for ever inside a write to the stalled stdout
     pub blocked_on_stdout: Vec<u32>,
+    // ---- shared worker pool (stand-in for rayon's global pool) ----
+    /// number of pool threads of this simulated process (rayon: number of cores / RAYON_NUM_THREADS)
+    pub pool_size: u32,
+    /// pool threads currently running a job
+    pub pool_busy: u32,
+    pub pool_jobs: u64,
+    /// tasks of jobs that wait for a free pool thread
+    pub pool_waiters: Vec<u32>,
     // ---- process ----
     pub hook: Option<Hook>,
     pub hook_sets: u32,
@@ -155,6 +163,10 @@ impl RunState {
             time_warps: 0,
             stdout_stalled: false,
             blocked_on_stdout: Vec::new(),
+            pool_size: 4,
+            pool_busy: 0,
+            pool_jobs: 0,
+            pool_waiters: Vec::new(),
             hook: None,
             hook_sets: 0,
             hook_calls: 0,
